@@ -750,6 +750,19 @@ func alphabet(c cfgT) []func(r *rand.Rand) string {
 			func(*rand.Rand) string { return "sendprotorej" })
 	}
 	if proto == "ipcp" {
+		// a repeated IP-Address option: first the (probably) assigned address, then another one or a malformed one
+		first := []string{"0a000064", "0a000065", "c0a80001"}
+		if c.peer != "" {
+			first = []string{c.peer, c.peer, "0a000065"}
+		}
+		second := []string{"0a000065", "c0a80001", "0a000064", "00000000", "0a0000", "-"}
+		evs = append(evs, func(r *rand.Rand) string {
+			opts := []string{"03:" + pick(r, first), "03:" + pick(r, second)}
+			if r.Intn(3) == 0 {
+				opts = append(opts, pick(r, ack))
+			}
+			return fmt.Sprintf("rcr %d %s", id(r), join(opts))
+		})
 		addrs := []string{"0a000064", "0a000065", "c0a80001", "-"}
 		evs = append(evs, func(r *rand.Rand) string { return "setpeer " + pick(r, addrs) })
 		if c.pool {
